@@ -133,6 +133,9 @@ def run(ctx):
     nu = units.check(rep, F, names)
     rep.floor('byte containers with a consistent unit', nu, 4)
     nb = bounded_fill(rep, F, names)
+    from rules import moveclear
+    nmc = moveclear.check(rep, F, names)
+    rep.floor('in-place digit shifts followed by a clear', nmc, 1)
     rep.floor('functions consulting the padding limit', nb, 1)
     # sign handed to pad_integral derives from the number's sign
     n_pad = 0
